@@ -111,6 +111,20 @@ CHECKS["C09"] = dict(
          "sampling with every VoseSampler replaced by a scripted one, seed usage (pairwise distinct sampler seeds), value-sampler wrappers."),
    note=TB + "Ideal independent uniforms are assumed, and distinct integer seeds are assumed to give independent streams.  Long-run frequencies, the native vose extension and the real PRNG are only TESTED (chi-square, fixed seeds, alpha 1e-6) - not proved.  u1*n is computed in floating point; the scripted grid stays 2^-20/n away from column boundaries.  The model gets exact rational weights, the implementation the nearest floats (tolerance 2^-48).  For unambiguous grammars 'mass = reported probability' and members-only are covered by the correspondence only.",
    design="5/C09")
+CHECKS["C18"] = dict(
+   technique="Coq proof of the task-generator model over oracle streams + extracted-model/implementation correspondence (scripted samplers; real seeded samplers with recorded draws replayed through the model)",
+   text=("Theorems (Props/C18.v, closed under the global context, unbounded): for every semantics, validator, skip sets, max_tries, uniques flag and "
+         "all sampler streams, every task the modelled generator returns has examples equal to the reference evaluation of its solution on its "
+         "inputs (genuinely successful evaluations when the validator rejects None), pairwise distinct outputs accepted by the validator, exactly the "
+         "number of examples drawn, a solution taken from the program stream of its request and inputs taken from the streams of its argument types "
+         "(C18_task_ok, C18_examples_count, C18_examples_are_evaluations), for every task of a sequence of any length (C18_sequence_ok); the sequence "
+         "is a function of the consumed stream prefixes (C18_deterministic, C18_sequence_prefix, C18_stream_local, C18_streams_consumed_in_order); "
+         "solutions flagged unique are pairwise distinct (C18_unique_solutions); C18_count_pinned_refuted exhibits the 0 -> 1 example defect fixed in "
+         "/repo.  Each run compares the extracted model with synth.pbe.task_generator on scripted sampler streams, and on real seeded samplers and "
+         "grammars records every draw, replays the model on it, re-evaluates the examples with the verified reference evaluator, runs two generators "
+         "with equal seeds and re-runs under a second PYTHONHASHSEED in a child interpreter."),
+   note=TB + "Samplers are observed only through the sequence of values they return.  The cached evaluator is the reference semantics (C11); grammar membership of samples is C09; program/type equality is structural on ground well-typed terms (C16).  Negative counts and negative max_tries are outside the model; termination of the outer while True is not claimed (explicit out-of-fuel result); reproduce_dataset is not modelled; PRNG quality is not a subject.",
+   design="5/C18")
 NOT_YET = {}
 def main():
     props = [json.loads(l) for l in open(os.path.join(V, "properties.jsonl"))]
